@@ -224,3 +224,36 @@ Lemma no_row_twice_groups groups rows :
   let s := create_index (of_list groups) in
   list_sum (map (fun g => length (attached s rows g)) (seq 0 (length groups))) <= length rows.
 Proof. cbv zeta. apply no_row_twice. apply seq_NoDup. Qed.
+
+(* ---------- TMT reporter cells ---------- *)
+Lemma nth_flat_map_blocks {E} (h : E -> list Q) (w : nat) (d : E) : (forall e, length (h e) = w) ->
+  forall l i k, i < length l -> k < w -> nth (i * w + k) (flat_map h l) (0#1)%Q = nth k (h (nth i l d)) (0#1)%Q.
+Proof.
+  intros Hw. induction l as [|x l IH]; intros i k Hi Hk; simpl in Hi; [lia|]. cbn [flat_map].
+  destruct i as [|i].
+  - cbn [Nat.mul Nat.add nth]. rewrite app_nth1 by (rewrite Hw; exact Hk). reflexivity.
+  - rewrite app_nth2 by (rewrite Hw; lia). rewrite Hw. replace (S i * w + k - w) with (i * w + k) by lia.
+    cbn [nth]. apply IH; [lia | exact Hk].
+Qed.
+
+(* the cell of experiment number i and reporter column k is the sum of that column over the counted rows of that experiment *)
+Lemma tmt_cell_spec cut exps width l i k : i < length exps -> k < width ->
+  nth (i * width + k) (tmt_intensities cut exps width l) (0#1)%Q =
+  qsum (map (fun r => nth k (p_tmt r) (0#1)%Q) (filter (fun r => counts cut r && in_exp (nth i exps []) r) l)).
+Proof.
+  intros Hi Hk. unfold tmt_intensities.
+  set (h := fun e : str => map (fun k0 => qsum (map (fun r => nth k0 (p_tmt r) (0#1)%Q) (filter (fun r => counts cut r && in_exp e r) l)))
+                               (seq 0 width)).
+  change (nth (i * width + k) (flat_map h exps) (0#1)%Q =
+          qsum (map (fun r => nth k (p_tmt r) (0#1)%Q) (filter (fun r => counts cut r && in_exp (nth i exps []) r) l))).
+  assert (Hw : forall e, length (h e) = width) by (intros e; unfold h; rewrite map_length, seq_length; reflexivity).
+  rewrite (nth_flat_map_blocks h width [] Hw exps i k Hi Hk). unfold h.
+  set (f := fun k0 => qsum (map (fun r => nth k0 (p_tmt r) (0#1)%Q) (filter (fun r => counts cut r && in_exp (nth i exps []) r) l))).
+  rewrite (nth_indep _ (0#1)%Q (f 0)) by (rewrite map_length, seq_length; exact Hk).
+  rewrite (map_nth f (seq 0 width) 0 k). rewrite seq_nth by exact Hk. reflexivity.
+Qed.
+
+Lemma tmt_length cut exps width l : length (tmt_intensities cut exps width l) = length exps * width.
+Proof.
+  unfold tmt_intensities. apply flat_map_length_blocks. intros e. rewrite map_length, seq_length. reflexivity.
+Qed.
